@@ -683,11 +683,200 @@ func c06GatedGen(t *rapid.T) c06Gated {
 	return c
 }
 
+// ---------------------------------------------------------------------------------
+// shared: one input slice, several goroutines
+
+type c06Shared struct {
+	X     vfB    `json:"x"`
+	Limit uint32 `json:"limit"`
+	G     int    `json:"goroutines"`
+}
+
+func c06SharedCheck(c c06Shared) vfResult {
+	var r vfResult
+	vfJournal("C06", "shared", c)
+	x := append([]byte(nil), c.X...)
+	orig := append([]byte(nil), x...)
+	defer SetLimit(defaultLimit)
+	SetLimit(c.Limit)
+	want := vfChainStr(Detect(x))
+	g := max(2, min(c.G, 8))
+	errs := make([]error, g)
+	start := make(chan struct{})
+	var wg sync.WaitGroup
+	for i := 0; i < g; i++ {
+		wg.Add(1)
+		go func(i int) {
+			defer wg.Done()
+			<-start
+			for k := 0; k < 6; k++ {
+				if got := vfChainStr(Detect(x)); got != want {
+					errs[i] = fmt.Errorf("%d goroutines detect one shared %d-byte slice under limit %d: one of them got %s, alone the answer is %s; head %s", g, len(x), c.Limit, got, want, vfQ(x[:min(len(x), 60)]))
+					return
+				}
+			}
+		}(i)
+	}
+	close(start)
+	wg.Wait()
+	for _, e := range errs {
+		if e != nil {
+			r.Err = e
+			return r
+		}
+	}
+	if !bytes.Equal(x, orig) {
+		r.Err = fmt.Errorf("the shared input slice was modified by concurrent detections; head %s", vfQ(orig[:min(len(orig), 60)]))
+		return r
+	}
+	r.Nontrivial = len(x) >= 16
+	r.Hash = vfHash(x, vfHashU(uint64(c.Limit), uint64(g)))
+	return r
+}
+
+// ---------------------------------------------------------------------------------
+// pipe: the bytes of a reader are produced by a goroutine that first registers a format (and
+// looks one up). DetectReader sits in Read meanwhile; it must not hold anything Extend needs.
+
+type c06Pipe struct {
+	Input   vfB    `json:"input"`
+	Parent  string `json:"parent"`
+	Limit   uint32 `json:"limit"`
+	Chunk   int    `json:"chunk"`
+	Lookups bool   `json:"lookups"`
+}
+
+func c06PipeCheck(c c06Pipe) vfResult {
+	var r vfResult
+	vfJournal("C06", "pipe", c)
+	vfTreeSnapshot()
+	stop := vfWatchdog("C06", "pipe", c, 40*time.Second)
+	defer func() {
+		stop()
+		vfTreeRestore()
+		SetLimit(defaultLimit)
+	}()
+	vfTreeRestore()
+	SetLimit(c.Limit)
+	input := []byte(c.Input)
+	before := vfChainStr(Detect(input))
+	pred := func(raw []byte, _ uint32) bool { return c06Tagged(raw, 0) }
+	pr, pw := io.Pipe()
+	go func() {
+		// the producer: registers its format, then sends the data
+		if c.Parent == "" {
+			vfExtendRoot(pred, "application/x-verif-pipe", ".vpipe")
+		} else if p := Lookup(c.Parent); p != nil {
+			p.Extend(pred, "application/x-verif-pipe", ".vpipe")
+		}
+		if c.Lookups {
+			_ = Lookup("application/x-verif-pipe")
+		}
+		chunk := c.Chunk
+		if chunk <= 0 {
+			chunk = len(input) + 1
+		}
+		for off := 0; off < len(input); off += chunk {
+			pw.Write(input[off:min(len(input), off+chunk)])
+		}
+		pw.Close()
+	}()
+	got, err := DetectReader(pr)
+	pr.Close()
+	if err != nil || got == nil {
+		r.Err = fmt.Errorf("DetectReader over a pipe returned (%v, %v)", got, err)
+		return r
+	}
+	after := vfChainStr(Detect(input))
+	if res := vfChainStr(got); res != before && res != after {
+		r.Err = fmt.Errorf("DetectReader over a pipe whose producer registers a format first returned %s; before the registration the answer is %s, after it %s", res, before, after)
+		return r
+	}
+	r.Nontrivial = true
+	if before != after {
+		r.Labels = append(r.Labels, "registration-changes-answer")
+	}
+	cb, _ := ejson.Marshal(c)
+	r.Hash = vfHash(cb)
+	return r
+}
+
 func TestVerif_C06(t *testing.T) {
 	defer vfStats.dump()
 	vfTreeSnapshot()
 	if vfOnlySub("gated") {
 		vfRun(t, vfSub[c06Gated]{Prop: "C06", Name: "gated", Checks: vfN(4000, 400000), Gen: c06GatedGen, Check: c06GatedCheck})
+	}
+	if t.Failed() {
+		return
+	}
+	if vfOnlySub("shared") {
+		// several goroutines detect ONE slice at the same time (a caller may share its input): any
+		// write to it, even one undone before returning, is a race and may change a neighbour's answer
+		if !vfReplayMode() {
+			sh, nsh := vfShard(), vfNShards()
+			for i, sd := range vfSeeds() {
+				if i%nsh != sh {
+					continue
+				}
+				x := sd.Data
+				if len(x) > 4096 {
+					x = x[:4096]
+				}
+				c := c06Shared{X: x, Limit: []uint32{defaultLimit, 0, 600}[i%3], G: 4}
+				r := c06SharedCheck(c)
+				r.Labels = append(r.Labels, "shared-seed")
+				vfStats.record(r, func() any { return map[string]any{"sub": "shared", "seed": sd.Name} })
+				if r.Err != nil {
+					vfEnumFail(t, "C06", "shared", c, r.Err)
+					return
+				}
+			}
+		}
+		vfRun(t, vfSub[c06Shared]{Prop: "C06", Name: "shared", Checks: vfN(1200, 160000), Check: c06SharedCheck,
+			Sample: func(c c06Shared) any {
+				return map[string]any{"sub": "shared", "len": len(c.X), "head": vfQ(c.X[:min(len(c.X), 40)]), "limit": c.Limit, "goroutines": c.G}
+			},
+			Gen: func(t *rapid.T) c06Shared {
+				var x []byte
+				switch rapid.IntRange(0, 7).Draw(t, "k") {
+				case 0:
+					x, _ = c18GenArchive(t)
+				case 1:
+					x = c03Zip(t)
+				case 2:
+					x = c03Ole(t)
+				case 3:
+					x = []byte(c12GenHTML(t).Doc)
+				case 4:
+					x = []byte(c10Gen(t).Doc)
+				case 5:
+					x = []byte(c13GenFwd(t).Doc)
+				case 6:
+					x = vfTarWindow(t, vfGenAnyInput(t))
+				default:
+					x = vfGenAnyInput(t)
+				}
+				if len(x) > 6000 {
+					x = x[:6000]
+				}
+				return c06Shared{X: x, Limit: rapid.SampledFrom([]uint32{defaultLimit, 0, 512, 100}).Draw(t, "limit"), G: rapid.IntRange(2, 6).Draw(t, "g")}
+			}})
+	}
+	if t.Failed() {
+		return
+	}
+	if vfOnlySub("pipe") {
+		vfRun(t, vfSub[c06Pipe]{Prop: "C06", Name: "pipe", Checks: vfN(600, 60000), Check: c06PipeCheck,
+			Gen: func(t *rapid.T) c06Pipe {
+				body := []byte(rapid.SampledFrom([]string{"plain text body\n", "{\"a\":1}", "PK\x03\x04rest", "<html><body>x</body></html>", "a,b\n1,2\n3,4\n"}).Draw(t, "body"))
+				if rapid.Bool().Draw(t, "tagged") {
+					body = append([]byte("VF0:"), body...)
+				}
+				return c06Pipe{Input: body, Parent: rapid.SampledFrom([]string{"", "text/plain", "application/zip", "application/json"}).Draw(t, "parent"),
+					Limit: rapid.SampledFrom([]uint32{defaultLimit, 0, 8, 1 << 16}).Draw(t, "limit"), Chunk: rapid.SampledFrom([]int{0, 1, 5}).Draw(t, "chunk"),
+					Lookups: rapid.Bool().Draw(t, "lookups")}
+			}})
 	}
 	if t.Failed() {
 		return
